@@ -187,7 +187,30 @@ pub fn run(ctx: &Ctx) -> i32 {
             KeyShape::K3 => rng.range(4, 60),
             _ => rng.range(2, 400),
         };
-        let base = gen::gen_entries(rng, shape, ValShape::Tiny, count);
+        let base = if rng.chance(1, 5) {
+            // mixed key widths around 8, 64 and 128 bytes over a tiny alphabet
+            let widths: &[usize] = match rng.below(3) {
+                0 => &[7, 8, 8, 9],
+                1 => &[1, 63, 64, 65, 66],
+                _ => &[8, 9, 64, 65, 127, 128, 129],
+            };
+            let mut keys: Vec<Vec<u8>> = (0..rng.range(3, 60))
+                .map(|_| {
+                    let w = *rng.pick(widths);
+                    let mut k = vec![b'a'; w];
+                    for _ in 0..2 {
+                        let p = rng.below(w);
+                        k[p] = *rng.pick(&[b'a', b'b', b'm', b'z']);
+                    }
+                    k
+                })
+                .collect();
+            keys.sort();
+            keys.dedup();
+            keys.into_iter().map(|k| (k, vec![1u8])).collect()
+        } else {
+            gen::gen_entries(rng, shape, ValShape::Tiny, count)
+        };
         let (seq, kind) = perturb(rng, &base, &cfg);
         check_seq(ctx, "perturbed", idx, &cfg, &seq, kind);
     });
